@@ -1,19 +1,85 @@
 // C49: drive the real simgrid::xbt::Parmap<T> (src/xbt/parmap.hpp) with per-element counters.
-// one case per input line:  mode(0 posix, 1 futex, 2 busy_wait) num_workers nrounds n1..nk jitter
+// one case per input line:  mode(0 posix, 1 futex, 2 busy_wait) num_workers nrounds n1..nk jitter [us period]
 // output line: number of apply() calls done, then for each: n followed by the n counters (how many times the function
-// was applied to each element during that apply()).  jitter != 0 makes some elements slower (yield) to vary schedules.
+// was applied to each element during that apply(), read by the caller immediately after apply() returned).
+// jitter != 0 makes some elements slower (yield) to vary schedules.
+//
+// us > 0 selects the wake-up injection phase: every element takes `us` microseconds in a worker (a quarter of that in
+// the controller, which also waits a bounded time for the workers to have taken an element each, so that the controller
+// reaches master_wait() while workers are still inside the user function), and a
+// helper thread sends SIGUSR1 (empty handler installed WITHOUT SA_RESTART) every `period` microseconds to the thread that
+// calls apply() and to every worker thread seen so far, from the creation of the Parmap to just before its destruction.
+// Each signal makes the blocking call the thread is in (futex_wait, pthread_cond_wait, sched_yield) return early: the
+// `Spurious t` event of the model (coq/theories/Xbt/Parmap.v).  The property does not depend on it: when apply() returns
+// every counter must be exactly 1.
+//
+// After a line that shows a violation (some counter != 1) the driver stops at once (_exit) without destroying the
+// Parmap: a worker may still be writing, later rounds or the destructor may hang.  A watchdog prints "HANG <round>"
+// in place of the case's line and stops the driver when one case takes more than C49_HANG_TIMEOUT seconds (default 120).
 #include "drv.hpp"
 #include "src/internal_config.h"
 #include "src/xbt/parmap.hpp"
 #include <simgrid/s4u/Engine.hpp>
+#include <algorithm>
 #include <atomic>
+#include <chrono>
+#include <csignal>
+#include <cstdlib>
 #include <memory>
+#include <mutex>
+#include <pthread.h>
 #include <thread>
+#include <time.h>
+#include <unistd.h>
+
+static void on_usr1(int) {}
+
+// sleep for `us` microseconds even if signals arrive meanwhile
+static void nap(long us)
+{
+  if (us <= 0)
+    return;
+  timespec end;
+  clock_gettime(CLOCK_MONOTONIC, &end);
+  end.tv_nsec += (us % 1000000) * 1000;
+  end.tv_sec += us / 1000000 + end.tv_nsec / 1000000000;
+  end.tv_nsec %= 1000000000;
+  while (clock_nanosleep(CLOCK_MONOTONIC, TIMER_ABSTIME, &end, nullptr) == EINTR) {
+  }
+}
+
+static std::atomic<long long> busy_since{0}; // ms timestamp of the start of the running case, 0 = idle
+static std::atomic<size_t> cur_round{0};
+static long long now_ms()
+{
+  return std::chrono::duration_cast<std::chrono::milliseconds>(std::chrono::steady_clock::now().time_since_epoch()).count();
+}
 
 int main(int argc, char** argv)
 {
   simgrid::s4u::Engine e(&argc, argv);
   simgrid::kernel::context::Context::set_nthreads(16); // dummy value > 1, as in teshsuite/xbt/parmap_test
+
+  struct sigaction sa;
+  sa.sa_handler = on_usr1;
+  sigemptyset(&sa.sa_mask);
+  sa.sa_flags = 0; // no SA_RESTART: interrupted blocking calls return EINTR
+  sigaction(SIGUSR1, &sa, nullptr);
+
+  long long hang_ms = 1000LL * (getenv("C49_HANG_TIMEOUT") ? atoll(getenv("C49_HANG_TIMEOUT")) : 120);
+  std::thread([hang_ms]() {
+    while (true) {
+      std::this_thread::sleep_for(std::chrono::milliseconds(100));
+      long long t = busy_since.load();
+      if (t != 0 && now_ms() - t > hang_ms) {
+        printf("HANG %zu\n", cur_round.load());
+        fflush(stdout);
+        _exit(0);
+      }
+    }
+  }).detach();
+
+  const pthread_t ctl = pthread_self();
   std::vector<long long> v;
   while (drv::next_case(v)) {
     e_xbt_parmap_mode_t mode = v.at(0) == 0 ? XBT_PARMAP_POSIX : (v.at(0) == 1 ? XBT_PARMAP_FUTEX : XBT_PARMAP_BUSY_WAIT);
@@ -21,14 +87,39 @@ int main(int argc, char** argv)
     if (mode == XBT_PARMAP_FUTEX)
       mode = XBT_PARMAP_POSIX;
 #endif
-    unsigned nw     = (unsigned)v.at(1);
-    size_t nrounds  = (size_t)v.at(2);
+    unsigned nw      = (unsigned)v.at(1);
+    size_t nrounds   = (size_t)v.at(2);
     long long jitter = v.at(3 + nrounds);
-    std::string out = std::to_string(nrounds);
+    long us          = v.size() > 5 + nrounds ? (long)v.at(4 + nrounds) : 0;
+    long period      = v.size() > 5 + nrounds ? (long)v.at(5 + nrounds) : 0;
+    std::string out  = std::to_string(nrounds);
+    bool violated    = false;
+    cur_round        = 0;
+    busy_since       = now_ms();
     {
       simgrid::xbt::Parmap<std::atomic<unsigned>*> parmap(nw, mode);
-      for (size_t r = 0; r < nrounds; r++) {
-        size_t n = (size_t)v.at(3 + r);
+      // wake-up injection
+      std::mutex tids_mutex;
+      std::vector<pthread_t> tids; // worker threads seen so far
+      std::atomic<bool> stop{false};
+      std::thread injector;
+      if (us > 0)
+        injector = std::thread([&]() {
+          while (not stop.load()) {
+            pthread_kill(ctl, SIGUSR1);
+            std::vector<pthread_t> copy;
+            {
+              const std::scoped_lock lock(tids_mutex);
+              copy = tids;
+            }
+            for (pthread_t t : copy)
+              pthread_kill(t, SIGUSR1);
+            nap(period);
+          }
+        });
+      for (size_t r = 0; r < nrounds && not violated; r++) {
+        cur_round = r;
+        size_t n  = (size_t)v.at(3 + r);
         std::unique_ptr<std::atomic<unsigned>[]> cnt(new std::atomic<unsigned>[n]);
         std::vector<std::atomic<unsigned>*> data(n);
         for (size_t i = 0; i < n; i++) {
@@ -36,18 +127,61 @@ int main(int argc, char** argv)
           data[i] = &cnt[i];
         }
         auto* base = cnt.get();
-        parmap.apply(
-            [jitter, base](std::atomic<unsigned>* p) {
-              if (jitter != 0 && ((p - base) * 2654435761u + jitter) % 7 == 0)
-                std::this_thread::yield();
-              p->fetch_add(1);
-            },
-            data);
+        std::atomic<size_t> started{0}; // elements taken by workers in this apply()
+        size_t want = std::min<size_t>(nw - 1, n > 0 ? n - 1 : 0);
+        if (us > 0)
+          parmap.apply(
+              [&, base](std::atomic<unsigned>* p) {
+                static thread_local bool registered = false;
+                bool in_ctl                         = pthread_equal(pthread_self(), ctl);
+                if (not in_ctl && not registered) {
+                  const std::scoped_lock lock(tids_mutex);
+                  bool known = false;
+                  for (pthread_t t : tids)
+                    known = known || pthread_equal(t, pthread_self());
+                  if (not known)
+                    tids.push_back(pthread_self());
+                  registered = true;
+                }
+                long d = in_ctl ? us / 4 : us;
+                if (((p - base) * 2654435761u + jitter) % 3 == 0)
+                  d *= 2;
+                if (in_ctl) { // give the workers a chance to take an element before the controller runs out of work
+                  for (int spin = 0; spin < 40 && started.load() < want; spin++)
+                    nap(us / 8 + 1);
+                } else
+                  started.fetch_add(1);
+                nap(d);
+                p->fetch_add(1);
+              },
+              data);
+        else
+          parmap.apply(
+              [jitter, base](std::atomic<unsigned>* p) {
+                if (jitter != 0 && ((p - base) * 2654435761u + jitter) % 7 == 0)
+                  std::this_thread::yield();
+                p->fetch_add(1);
+              },
+              data);
+        // what the caller of apply() sees when apply() returns
         out += " " + std::to_string(n);
-        for (size_t i = 0; i < n; i++)
-          out += " " + std::to_string(cnt[i].load());
+        for (size_t i = 0; i < n; i++) {
+          unsigned c = cnt[i].load();
+          out += " " + std::to_string(c);
+          violated = violated || c != 1;
+        }
+        if (violated) { // a worker may still be running on cnt/data: stop here, leaking everything
+          printf("%s\n", out.c_str());
+          fflush(stdout);
+          _exit(0);
+        }
+      }
+      if (us > 0) {
+        stop = true;
+        injector.join();
       }
     }
+    busy_since = 0;
     printf("%s\n", out.c_str());
     fflush(stdout);
   }
